@@ -247,7 +247,13 @@ class Events(Monitor):
                     interp = 0.0
                     if hmax > 0:
                         interp = 1.5 * hmax ** 4 / 384 * world.problem.deriv4_scale(k) * float(np.max(np.abs(np.asarray(y, dtype=np.float64)))) * 4
-                    tb_ = 10 * (E + interp) / max(slope, 1e-300) + 64 * eps * max(1.0, abs(te)) + 1e-14
+                    if ev.kind == "dstate":
+                        # the event function sees the derivative of the cubic interpolant: O(h^3) instead of O(h^4)
+                        Lp_ = world.problem.lipschitz(k)
+                        interp = interp * 0.0 + (0.01 * hmax ** 3 * world.problem.deriv4_scale(k) * float(np.max(np.abs(np.asarray(y, dtype=np.float64)))) * 4)
+                        tb_ = 10 * (E * Lp_ + interp) / max(slope, 1e-300) + 64 * eps * max(1.0, abs(te)) + 1e-14
+                    else:
+                        tb_ = 10 * (E + interp) / max(slope, 1e-300) + 64 * eps * max(1.0, abs(te)) + 1e-14
                     d = abs(tr - te)
                     world.ratio("C07.near_true_root", d / tb_)
                     if d > tb_:
@@ -262,21 +268,16 @@ class Events(Monitor):
                         if abs(other - te) <= 100 * math.sqrt(eps) * max(hmax, 1e-300):
                             world.violate("C07", "C07.unique", "event %d reported twice: t=%r and t=%r" % (ev.idx, other, te))
                     per_root.setdefault(key, []).append(te)
-            # uniqueness over the whole history for this function (also across split calls)
-            if exact_ok and E is not None:
-                seen = {}
-                for e in events:
-                    ev = e.event
-                    te = _f(e.t)
-                    roots = true_roots(world, ev, _f(t[0]), te + self.dir * (10 * hmax + 1e-3))
-                    if not roots:
-                        continue
-                    tr, gdot = min(roots, key=lambda r_: abs(r_[0] - te))
-                    key = (ev.idx, round(tr, 9))
-                    if key in seen:
-                        world.violate("C07", "C07.unique", "the crossing of event %d at true root %r is reported twice (t=%r and t=%r)" % (ev.idx, tr, _f(seen[key].t), te))
-                        break
-                    seen[key] = e
+            # uniqueness over the whole history for this function (also across split calls): two reports of the same function
+            # closer than 1e-7 (relative) are the same crossing -- the generator keeps genuine roots >= 1e-3 apart
+            last = {}
+            for e in events:
+                ev = e.event
+                te = _f(e.t)
+                if ev.idx in last and abs(te - last[ev.idx]) <= 1e-7 * max(1.0, abs(te)):
+                    world.violate("C07", "C07.unique", "the crossing of event %d near t=%r is reported twice (t=%r and t=%r)" % (ev.idx, te, last[ev.idx], te))
+                    break
+                last[ev.idx] = te
         if "C09" in self.props:
             term_events = [events[j] for j in new if events[j].event.is_terminal]
             if terminated:
@@ -304,7 +305,10 @@ class Events(Monitor):
                     h_over = max(hmax, abs(_f(over[-1]["dTime"])) if over else 0.0)     # the root was located on the interpolant of the rolled-back step
                     interp = 1.5 * h_over ** 4 / 384 * world.problem.deriv4_scale(k) * float(np.max(np.abs(np.asarray(y, dtype=np.float64)))) * 4 if h_over > 0 else 0.0
                     Lp = world.problem.lipschitz(k) if ev.kind == "dstate" else 1.0
-                    bound = abs(float(ev.scale)) * (20 * (E + interp) * max(Lp, 1.0) + 64 * eps * (1 + hd) * max(1.0, abs(_f(te))))
+                    if ev.kind == "dstate":
+                        # located on the derivative of the cubic interpolant: O(h^3)
+                        interp = 0.01 * h_over ** 3 * world.problem.deriv4_scale(k) * float(np.max(np.abs(np.asarray(y, dtype=np.float64)))) * 4
+                    bound = abs(float(ev.scale)) * (20 * (E * max(Lp, 1.0) + interp) + 64 * eps * (1 + hd) * max(1.0, abs(_f(te))))
                     world.ratio("C09.on_event_surface", gv / bound)
                     if gv > bound:
                         world.violate("C09", "C09.on_event_surface", "|g(t[-1],y[-1])| = %.3e > %.3e at the terminal stop (event %d, scale %g)" % (gv, bound, ev.idx, ev.scale))
@@ -319,8 +323,8 @@ class Events(Monitor):
                             sense = sgn(gdot) * self.dir
                             if tev.direction != 0 and sense != sgn(tev.direction):
                                 continue
-                            if abs(tr - self.start_t) <= 1e-9:
-                                continue
+                            if abs(tr - self.start_t) <= 1e-3 + 100 * (E + interp):
+                                continue        # a root at the starting point of this call (continuation after a stop there)
                             if first is None or (tr - first[0]) * self.dir < 0:
                                 first = (tr, tev.idx)
                     if first is not None:
